@@ -117,7 +117,10 @@ def run(ctx):
         queries = rng.sample(names, min(3, nn)) + ['zz']
         for qn in queries:
             for creds in rng.sample(CREDS, 3):
-                c = ec.enforce_case(rules, {'by': 'name', 'name': qn}, {}, creds, dflt=dflt, checklog=1, rng=rng, want='c06')
+                # (how the rule set reaches the enforcer - a Rules object with the enforcer's default, with
+                #  another one, with none, loaded from text, a dict, the constructor - never matters)
+                c = ec.enforce_case(rules, {'by': 'name', 'name': qn}, {}, creds, dflt=dflt, checklog=1, rng=rng, want='c06',
+                                    via=rng.choice(['rules_obj', 'rules_obj', 'own_default', 'no_default', 'loaded', 'dict', 'ctor']))
                 cases.append(c)
         # a body enforced as a check object: probes are told None
         nb, body = rng.choice(rules)
